@@ -128,6 +128,22 @@ def run(ctx):
                 m = batch[len(batch) // 2]
                 ctx.sample({"spec_to_code": core.ucs(m["src"]), "start": m["start"], "expected_tokens": [t["t"] for t in m["out"]]})
                 first = False
+    # 1a. random deep behaviours (TLC -simulate, depth 12-16 fragments; the simulator exports every successor it generates)
+    for alpha, num, depth in (("markup", 40 if ctx.quick else 1500, 12), ("script", 40 if ctx.quick else 1500, 16), ("words", 40 if ctx.quick else 1200, 10)):
+        r = ctx.tlc("MC_Tokenizer", cfg(alpha, depth, True, listed), "sim-" + alpha, keep_records=False,
+                    simulate="num=%d" % num, depth=depth + 1, seed=ctx.seed, workers=1)
+        if r.violated:
+            ctx.violation("theorem %s fails on the tokenizer specification (simulation)" % r.violated, {"tlc": r.stdout_path})
+            continue
+        for batch in core.batched(tlc.iter_records(r.stdout_path), 100000):
+            res = core.parallel(_replay, batch)
+            for rec, (ok, got) in zip(batch, res):
+                ctx.traces += 1
+                if not ok:
+                    ctx.violation("real tokenizer output differs from Tokenize (code-faithful model) [simulation %s]" % alpha,
+                                  {"kind": "replay", "src": rec["src"], "start": rec["start"],
+                                   "last": None if rec["last"] == NONE else core.ucs(rec["last"]), "cdata": rec["cdata"],
+                                   "expected": rec["out"], "got": got})
     ctx.exhaustive = True
     # 1b. W-method transition cover derived from the specification's state graph
     tests = cover_tests(ctx)
